@@ -146,6 +146,9 @@ func propC01(rec *stats.Rec, sc *scratch, auto bool) func(t *rapid.T) {
 		if err := l.Materialise(); err != nil {
 			t.Fatalf("VERIF-HARNESS materialise: %v", err)
 		}
+		if auto {
+			waitForInotify()
+		}
 		cache, _ := cdi.NewCache(cdi.WithSpecDirs(l.Paths()...), cdi.WithAutoRefresh(auto))
 		if auto {
 			defer cache.Configure(cdi.WithAutoRefresh(false))
